@@ -128,7 +128,6 @@ func (x *Explorer) havocCall(in ssa.Instruction, ev *Event) {
 			if a.Kind == KClosure || a.Kind == KFunc {
 				if f := a.Ref.(*ssa.Function); x.P.InPkg(f) {
 					targets = append(targets, f)
-					deref = true
 				}
 			}
 		}
@@ -138,6 +137,27 @@ func (x *Explorer) havocCall(in ssa.Instruction, ev *Event) {
 		} else {
 			external = true
 		}
+	}
+	// closures: stores through captured variables hit exactly the bound cells
+	closureBind := func(cl *Term) {
+		if cl == nil || cl.Kind != KClosure {
+			return
+		}
+		f := cl.Ref.(*ssa.Function)
+		m := x.P.Mod(f)
+		for idx := range m.FreeStores {
+			if idx < len(cl.Args) {
+				if root := addrRoot(cl.Args[idx]); root != nil && root.Kind == KAlloc {
+					allocs[root.Ref.(*ssa.Alloc)] = true
+				} else {
+					deref = true
+				}
+			}
+		}
+	}
+	closureBind(ev.FnVal)
+	for _, a := range ev.Args {
+		closureBind(a)
 	}
 	for _, t := range targets {
 		m := x.P.Mod(t)
